@@ -145,6 +145,95 @@ theorem cursVia_lookup {fix : CPos → CPos} {d d' : Db K V} (h : CursVia fix d 
     curPos d' c = (curPos d c).map fix :=
   cursVia_curPos h c
 
+/-! ### 3. histories -/
+
+/-- Any history of mutations — `iwkv_put`, `iwkv_del`, `iwkv_cursor_set` / `iwkv_cursor_del` through
+    any cursor id (the tracked cursor `c` included), and arbitrary repositionings of the *other*
+    cursors — run from a valid chain on which cursor `c` stands at a usable position `p`.
+    At the end the chain is valid, cursor `c` stands at a usable position `p'`, and for what NEXT
+    has yet to return (`aheadN`) as well as for what PREV has yet to return (`aheadP`):
+
+    * `surv`: the keys that were ahead and were not removed by the history (`runDel`: the keys of
+      the `del`s and the keys under the deleting cursors) are still ahead, in the same relative order;
+    * `orig`: whatever is ahead now, except keys the history put (`runPut`), was ahead before, in the
+      same relative order — nothing else appears;
+    * `same`: the records ahead whose key the history did not touch are exactly the same, values
+      included;
+    * a key the history removed and did not put again afterwards (`runDead`) is not ahead (it is not
+      in the store);
+    * what is ahead is strictly descending in key order, so by `scan_from` continuing the scan
+      returns it in key order, each record once. -/
+theorem history_keeps_cursor [DecidableEq K] (st : StrictTotal gt) (d : Db K V) (inv : NodeInv gt d.nodes)
+    (c : Nat) (p : CPos) (hc : curPos d c = some p) (hp : CurOk d.nodes p) (ms : List (Mut K V))
+    (hmv : ∀ m ∈ ms, ∀ q, m ≠ .move c q) :
+    let d' := runMut gt d ms
+    NodeInv gt d'.nodes ∧
+    ∃ p', curPos d' c = some p' ∧ CurOk d'.nodes p' ∧
+      StepFacts (aheadN d.nodes p) (aheadN d'.nodes p') (runDel gt d ms) (runPut ms) (runTouch gt d ms) ∧
+      StepFacts (aheadP d.nodes p) (aheadP d'.nodes p') (runDel gt d ms) (runPut ms) (runTouch gt d ms) ∧
+      (∀ k ∈ runDead gt d ms, ∀ r, (r ∈ aheadN d'.nodes p' ∨ r ∈ aheadP d'.nodes p') → r.1 ≠ k) ∧
+      Desc gt (aheadN d'.nodes p') ∧ Desc gt (aheadP d'.nodes p') := by
+  intro d'
+  obtain ⟨inv', p', hc', hp', hN, hP⟩ := run_tracks st c ms d p inv hc hp hmv
+  refine ⟨inv', p', hc', hp', hN, hP, ?_, aheadN_desc inv'.2 p', aheadP_desc inv'.2 p'⟩
+  intro k hk r hr
+  refine run_dead st ms d inv k hk r ?_
+  rcases hr with hr | hr
+  · exact mem_flat_of_ahead.1 hr
+  · exact mem_flat_of_ahead.2 hr
+
+/-- The same, spelled out for the forward direction without the `StepFacts` bundle. -/
+theorem history_forward [DecidableEq K] (st : StrictTotal gt) (d : Db K V) (inv : NodeInv gt d.nodes)
+    (c : Nat) (p : CPos) (hc : curPos d c = some p) (hp : CurOk d.nodes p) (ms : List (Mut K V))
+    (hmv : ∀ m ∈ ms, ∀ q, m ≠ .move c q) :
+    ∃ p', curPos (runMut gt d ms) c = some p' ∧ CurOk (runMut gt d ms).nodes p' ∧
+      (((aheadN d.nodes p).map (·.1)).filter (fun k => decide (k ∉ runDel gt d ms))).Sublist
+        ((aheadN (runMut gt d ms).nodes p').map (·.1)) ∧
+      (((aheadN (runMut gt d ms).nodes p').map (·.1)).filter (fun k => decide (k ∉ runPut ms))).Sublist
+        ((aheadN d.nodes p).map (·.1)) ∧
+      (aheadN (runMut gt d ms).nodes p').filter (fun r => decide (r.1 ∉ runTouch gt d ms)) =
+        (aheadN d.nodes p).filter (fun r => decide (r.1 ∉ runTouch gt d ms)) ∧
+      (∀ k ∈ runDead gt d ms, ∀ r ∈ aheadN (runMut gt d ms).nodes p', r.1 ≠ k) ∧
+      scan (runMut gt d ms) (curNext (runMut gt d ms)) ((aheadN (runMut gt d ms).nodes p').length + 1) p' =
+        ((aheadN (runMut gt d ms).nodes p').map some, true) := by
+  obtain ⟨inv', p', hc', hp', hN, _, hdead, _, _⟩ := history_keeps_cursor st d inv c p hc hp ms hmv
+  exact ⟨p', hc', hp', hN.surv, hN.orig, hN.same, fun k hk r hr => hdead k hk r (Or.inl hr),
+    (scan_from (runMut gt d ms) inv' p' hp').1⟩
+
 end
+
+/-! ### the hypotheses are satisfiable; the model computes -/
+
+/-- NEXT from the cursor of the example store returns the one record ahead of it. -/
+example : ∃ r, curRec exDb9 (.at 1 0 0) = some r ∧
+    aheadN exDb9.nodes (.at 0 1 0) = r :: aheadN exDb9.nodes (.at 1 0 0) := by
+  obtain ⟨r, h1, h2, _⟩ := (next_spec exDb9 exDb9_inv.1 _ exDb9_curOk).1 (.at 1 0 0) rfl
+  exact ⟨r, h1, h2⟩
+
+/-- a history through the database and through both cursors, on the example store -/
+example : ∃ p', curPos (runMut natGt exDb9 [.put 8 80 0, .del 7, .cdel 1, .put 3 30 0, .cset 1 41, .move 2 (.at 0 0 0)]) 1 = some p' ∧
+    CurOk (runMut natGt exDb9 [.put 8 80 0, .del 7, .cdel 1, .put 3 30 0, .cset 1 41, .move 2 (.at 0 0 0)]).nodes p' := by
+  obtain ⟨p', h1, h2, _⟩ := history_forward natGt_strictTotal exDb9 exDb9_inv 1 _ rfl exDb9_curOk
+    [.put 8 80 0, .del 7, .cdel 1, .put 3 30 0, .cset 1 41, .move 2 (.at 0 0 0)]
+    (by intro m hm q e; subst e; simp at hm)
+  exact ⟨p', h1, h2⟩
+
+example : let d' := runMut natGt exDb9 [.put 8 80 0, .del 7, .cdel 1, .put 3 30 0, .cset 1 41, .move 2 (.at 0 0 0)]
+    curPos d' 1 = some (.at 0 0 (-1)) ∧ aheadN d'.nodes (.at 0 0 (-1)) = [(4, 40), (3, 30)] ∧
+    runDel natGt exDb9 [.put 8 80 0, .del 7, .cdel 1, .put 3 30 0, .cset 1 41, .move 2 (.at 0 0 0)] = [7, 8] := by
+  decide
+
+/-- Finding F38 on the model: cursor 1 stands on key 7 and deletes it (last slot of its node, so
+    it is parked on the slot of key 9 with `skip_next = -1`); key 8 is then inserted; the next NEXT
+    of cursor 1 returns 8 — a key above the key 7 the scan had already reached. The theorems above
+    hold all the same: nothing that was ahead (`(4, 40)`) is lost, only the newborn is extra. -/
+theorem f38_witness :
+    let d1 := curDel exDb9 (.at 0 1 0)
+    let d2 := (put natGt d1 8 80 false 0).1
+    curRec exDb9 (.at 0 1 0) = some (7, 70) ∧
+    curPos d1 1 = some (.at 0 0 (-1)) ∧ aheadN d1.nodes (.at 0 0 (-1)) = [(4, 40)] ∧
+    curPos d2 1 = some (.at 0 0 (-1)) ∧ aheadN d2.nodes (.at 0 0 (-1)) = [(8, 80), (4, 40)] ∧
+    curNext d2 (.at 0 0 (-1)) = (.at 0 1 0, true) ∧ curRec d2 (.at 0 1 0) = some (8, 80) := by
+  decide
 
 end IwModel.C09
